@@ -13,7 +13,7 @@
 From Coq Require Import List ZArith Lia Bool Arith.
 Import ListNotations.
 Require Import Vault Vaultproof Row Table Grid Tableabs Tableproof5 Tableproof6 Transform Transformproof Transformproof2 Transformproof4 Transformproof11
-               TableB TableBabs TableBproof TableBproof2 TableBproof3 TableBproof4 TableBproof5.
+               TableB TableBspan TableBabs TableBproof TableBproof2 TableBproof3 TableBproof4 TableBproof5.
 Open Scope Z_scope.
 
 (* ---- the cache-filling reads of a call, then its single write ---- *)
@@ -35,8 +35,6 @@ Qed.
 Section X.
 Variable a : calg.
 
-Definition area_reads (x y z t : Z) : list bop :=
-  flat_map (fun yy => map (fun xx => BRead (RQ (QGetCell xx yy))) (zrange x (Z.to_nat (z + 1 - x)))) (zrange y (Z.to_nat (t + 1 - y))).
 Lemma area_reads_are_reads x y z t : Forall is_read (area_reads x y z t).
 Proof.
   unfold area_reads. apply Forall_forall. intros o Hin. apply in_flat_map in Hin. destruct Hin as (yy & _ & Hin).
@@ -112,6 +110,27 @@ Proof.
     destruct (t_step (ax b) (OSetLines false x y _)) as [st'|] eqn:E3; [|discriminate]. inversion Hs; subst st' r.
     destruct (reads_then_write b _ (OSetLines false x y _) t' Hc Hrd (lines_of_ok _) E3) as (b' & Hb & Ha & Hc').
     rewrite Hb. exists b'. auto.
+Qed.
+
+(* the span steps are the steps `for a given content` of TableBspan (what the checker of C02 evaluates), at the content C17's model writes *)
+Theorem xstep_set_span_given b x y z t m mid b' r : b_xstep b (XSetSpan x y z t m mid) = Some (b', r) ->
+  exists cells, b_set_span_given x y z t r cells b = Some b'.
+Proof.
+  cbn [b_xstep]. unfold b_set_span_given, b_span_write. destruct ((x =? z) && (y =? t)); [intros H; inversion H; subst; exists []; reflexivity|].
+  destruct (x_step a true (ax b) _) as [[t' [|]]|]; try discriminate.
+  - match goal with |- match b_mut true _ (OSetLines false x y (lines_of ?c)) with _ => _ end = _ -> _ => exists c end.
+    destruct (b_mut true _ _) as [b2|]; [|discriminate]. inversion H; subst. reflexivity.
+  - intros H; inversion H; subst. exists []. reflexivity.
+Qed.
+Theorem xstep_del_span_given b x y b' r : b_xstep b (XDelSpan x y) = Some (b', r) ->
+  exists cells, b_del_span_given x y r cells b = Some b'.
+Proof.
+  cbn [b_xstep]. unfold b_del_span_given, b_span_write.
+  destruct (x_step a true (ax b) _) as [[t' [|]]|]; try discriminate.
+  - destruct (ca_cs a _) as [nc|]; [|discriminate]. destruct (ca_rs a _) as [nr|]; [|discriminate].
+    match goal with |- match b_mut true _ (OSetLines false x y (lines_of ?c)) with _ => _ end = _ -> _ => exists c end.
+    destruct (b_mut true _ _) as [b2|]; [|discriminate]. inversion H; subst. reflexivity.
+  - intros H; inversion H; subst. exists []. reflexivity.
 Qed.
 End X.
 
